@@ -387,13 +387,16 @@ def translator_validate(mod, cfg, spec, T, p, st):
         return  # float rounding moved the run onto another path
     st.tv_samples += 1
     subst = [(T[n], rv(Fraction(Vc[n])) if spec[n] == "real" else z3.IntVal(Vc[n])) for n in spec]
+    # cancellation in a sum makes the float result inexact relative to ITSELF; compare relative to the largest magnitude in play
+    big = max([abs(float(b)) for b in con_leaves if isinstance(b, (int, float)) and b == b and abs(b) != float("inf")]
+              + [abs(float(v)) for v in Vc.values()] + [0.0])
     for a, b in zip(sym_leaves, con_leaves):
         if not core.is_sym(a):
             continue
         e = core.term(a)
         fresh_free = [v for v in _free_vars(e) if v.decl().name() not in spec]
-        if fresh_free:
-            continue
+        if fresh_free or "to_int" in e.sexpr():
+            continue  # fresh roots have no closed form; floor is discontinuous, so float rounding may legitimately flip it
         v = z3.simplify(z3.substitute(e, *subst))
         if not z3.is_rational_value(v):
             continue
@@ -401,7 +404,7 @@ def translator_validate(mod, cfg, spec, T, p, st):
         st.tv_leaves += 1
         if isinstance(b, float) and (b != b or abs(b) == float("inf")):
             continue
-        if abs(exact - float(b)) > 1e-9 * (abs(exact) + abs(float(b)) + 1e-300) + 1e-12:
+        if abs(exact - float(b)) > 1e-9 * (abs(exact) + abs(float(b)) + big) + 1e-12:
             st.tv_bad += 1
             st.errors.append("translator validation mismatch cfg=%s sym=%r real=%r" % (json.dumps(cfg)[:200], exact, b))
 
